@@ -84,3 +84,17 @@ def _v32(repo, mod):
     fn = repo.func(COMP, "TestSuiteChromosomeComputation._run_test_suite_chromosome")
     s = find_stmt(fn, lambda s: isinstance(s, ast.Assign) and norm(s) == "test_case_chromosome.changed = False")
     return delete_stmt(mod, s)
+
+
+@variant("C35", "html-lexer-strips-leading-blank-lines", "pynguin.utils.report", "C35.html", "default PythonLexer (stripnl=True) shifts the code against its markers (the repaired defect)")
+def _v40(repo, mod):
+    fn = repo.func("pynguin.utils.report", "render_coverage_report")
+    k = find_node(fn, lambda n: isinstance(n, ast.keyword) and n.arg == "lexer")
+    return replace_node(mod, k.value, "PythonLexer")
+
+
+@variant("C35", "twin-lexer-through-a-lambda", "pynguin.utils.report", None, "same lexer options through a lambda")
+def _v41(repo, mod):
+    fn = repo.func("pynguin.utils.report", "render_coverage_report")
+    k = find_node(fn, lambda n: isinstance(n, ast.keyword) and n.arg == "lexer")
+    return replace_node(mod, k.value, "lambda: PythonLexer(stripnl=False)")
